@@ -26,22 +26,7 @@ def gen_cases(chk, sd, thorough, name, cfg, impl=None):
 
 
 def stable_overlay(sd):
-    """vf.make_overlay points into a cache shared with (and pruned by) concurrently running checks: copy the two
-    generated files into this run's scratch directory so that the build cannot lose them."""
-    import shutil
-    for attempt in range(5):
-        ov = vf.make_overlay(sd, [])
-        rep = json.load(open(ov))["Replace"]
-        try:
-            for dst, src in list(rep.items()):
-                mine = os.path.join(sd, "gen-" + os.path.basename(dst))
-                shutil.copy(src, mine)
-                rep[dst] = mine
-        except OSError:
-            continue
-        json.dump({"Replace": rep}, open(ov, "w"), indent=1)
-        return ov
-    raise vf.NoVerdict("generated build files keep disappearing from the shared cache")
+    return vf.make_overlay(sd, [])      # (the library keeps private copies of the generated build files)
 
 
 def want_pre(case):
@@ -132,21 +117,23 @@ def ego_stage(sd, cases, ego, env, stats):
 
 
 def replay(path):
-    """bin/verif check C03 --replay replays/C03-....json : re-runs the recorded cell on the real interpreter"""
+    """bin/verif check C03 --replay replays/C03-....json : re-runs the recorded cell on the real interpreter
+    (prints the program, the observation and the verdict; does not touch the evidence file)"""
     rp = json.load(open(path))["replay"]
     case, mode = rp["case"], rp["mode"]
-    chk = vf.Check(PROP)
     with vf.scratch() as sd:
         ego = vf.build_ego(sd, stable_overlay(sd))
         o = ep.run_snippets_ego(ego, vf.ego_env(sd), os.path.join(sd, "replay"), [ep.snippet_arith("ego", 0, case)], ["--types", mode], batch=1)[0]
-        d = judge(case, mode, o)
-        print(ep.ego_program([ep.snippet_arith("ego", 0, case)]))
-        print("observed:", o, "\nexpected:", fmt_exp(case["exp"][mode]["o"]), "\nverdict:", d or "conforms")
-        if d and d[0] != "setup":
-            chk.violation("%s/%s/%s" % (case["key"], mode, d[0]), "%s %s" % (src_of(case, mode), d[1]), rp)
-        chk.cov.update(states=1, transitions=1, evaluations=1)
-        chk.sample({"replayed": case["key"], "mode": mode})
-    return chk.finish()
+    d = judge(case, mode, o)
+    print(ep.ego_program([ep.snippet_arith("ego", 0, case)]))
+    print("observed:", o, "\nexpected:", fmt_exp(case["exp"][mode]["o"]), "\nverdict:", d or "conforms")
+    if d and d[0] == "setup":
+        raise vf.NoVerdict("replay: " + d[1])
+    if d:
+        print("VIOLATION property=%s replay=%s" % (PROP, path))
+        print("  key=%s/%s/%s: %s %s" % (case["key"], mode, d[0], src_of(case, mode), d[1]))
+        return 1
+    return 0
 
 
 def run():
